@@ -195,8 +195,10 @@ CLAIMED = {
             "CONVERGENCE (Boyle-Dykstra) is PROVED: Lemmas/DykstraConv.lean (abstract theorem in a finite-dimensional real inner "
             "product space for maps that land in closed sets and satisfy the variational inequality), DykstraConvBox.lean "
             "(rational model loop = restriction of the real one), DykstraConvStencil.lean + Props/C08.lean: every group map of "
-            "monotonicity, unimodality, Edgeworth, trapezoid, monotonic dominance and joint monotonicity IS the Euclidean "
-            "projection onto its feasible set (key_lands, key_vi); dykstra_cfg_converges / projectByDykstraT_cfg_converges: for "
+            "monotonicity, unimodality, Edgeworth, trapezoid, monotonic dominance, joint monotonicity and JOINT UNIMODALITY "
+            "(Model: juStencil / hyperplaneGroup, one group per (vertex, offsets) hyperplane in the real loop's order; "
+            "Lemmas/JointUnimod.lean juStencil_ok, Lemmas/DykstraConvHyper.lean hyperplaneGroup_lands/_fix/_vi, hsP_* for any "
+            "coefficient vector a != 0) IS the Euclidean projection onto its feasible set (key_lands, key_vi); dykstra_cfg_converges / projectByDykstraT_cfg_converges: for "
             "every such configuration and every kernel the iterates (function-level and executable table loop) converge to the "
             "Euclidean-nearest feasible kernel, the violation tends to 0. ", "4/C08", "PARTIAL: range dominance is outside the convergence theorem (the property does not claim a nearest-point limit for it; its corner map is proved NOT to be a Euclidean projection, rangeDom_corner_not_projection) and is tested against scipy SLSQP / violation -> 0 each run; the RATE of convergence (how many iterations the strict layer constraint needs) and the PWL iterative projection's limit are covered by the oracle here and by C04's model. "),
     "C06": ("Lean 4 theorems on an executable model of linear_lib.project / categorical project / "
